@@ -8,6 +8,7 @@ HARNESSES = {
     'holders_seq': {'san': 'asan'},
     'unique_seq': {'san': 'asan'},
     'bits_seq': {'san': 'asan'},
+    'parsers_fuzz': {'san': 'asan', 'cxxflags': ['-fno-sanitize=nonnull-attribute'], 'fuzz_raw': True},
     'printf_diff': {'san': 'asan', 'cxxflags': ['-fno-sanitize=nonnull-attribute']},
     'rbtree_seq': {'san': 'asan'},
     'interval_seq': {'san': 'asan'},
@@ -299,7 +300,7 @@ PROPS['C08'] = {
 
 PROPS['C19'] = {
     'runs': [{'harness': 'printf_diff',
-              'quick': {'rc': rc(20000, sizes=[30, 60, 120])},
+              'quick': {'rc': rc(80000, sizes=[30, 60, 120])},
               'thorough': {'rc': rc(300000, sizes=[30, 60, 120, 200]), 'fuzz': {'seconds': 150}}}],
     'rule': 'printf: 1-3 directives from the grammar %[n$][flags][width|*][.prec|.*][hh|h|l|ll|z|t|j]{d,i,u,o,x,X}, %[n$][-][width|*][.prec|.*]{c,s}, %p, literal text '
             'incl. %%; flags any subset ISO C defines for the conversion; widths 1..70 literal or * in -70..70; precisions none/./0..70/.* in -6..70; values from the '
@@ -318,6 +319,28 @@ PROPS['C19'] = {
     'level_note': 'trusts glibc 2.36 as the ISO C reference in the "C" locale (x86-64 SysV va_list layout); flag/conversion combinations that ISO C leaves undefined are not generated',
     'technique': 'differential property testing against glibc printf and an independent fmt-grammar interpreter (rapidcheck tapes + libFuzzer on the directive decoder)',
     'assumptions': ['x86-64 SysV ABI', 'C locale', 'no %lc/%ls, no floating point conversions (outside the property)'],
+}
+
+PROPS['C20'] = {
+    'runs': [{'harness': 'parsers_fuzz',
+              'quick': {'enum': True, 'rc': rc(30000, sizes=[10, 30, 80], scale=1)},
+              'thorough': {'enum': True, 'rc': rc(400000, sizes=[10, 30, 80, 200], scale=1),
+                           'fuzz': {'seconds': 240, 'max_len': 512, 'dict': 'corpus/C20/parsers.dict', 'timeout': 30}}}],
+    'rule': 'tape element 0 selects the parser (printf_format, fmt(), parse_arguments, to_number) and a variant (argument strings, argument tuples incl. none, four '
+            'option tables incl. an empty and a joined one, six target integer types), every further element is one input byte placed in an exact-size heap buffer; '
+            'enumeration: every string up to length 4 (thorough 5) over "%$*.-+01 9lhdscx" for printf, up to 5 (6) over "{}:019xc" for fmt, up to 7 (8) over '
+            '\'" =a1\' and 5 (6) over the joined-table alphabet for the command line, up to 6 over "09a" for each to_number type, plus digit runs of length 1..40 in '
+            'every numeric position; rapidcheck: 3/4 of the bytes drawn from the parser\'s meta characters, the rest arbitrary; libFuzzer: arbitrary bytes <= 512 with a '
+            'token dictionary and the literals of tests.cpp as seeds. printf reads a hand-made va_list with exactly count(%)+count(*)+9[$] slots. Oracle: no ASan/UBSan '
+            'report, canaries around the option targets intact, string_view targets inside the input buffer, the call returns or stops through frg_panic (counted). '
+            'Termination: a case that uses 20 s of CPU is a hang (confirmed by 3 replays). Non-trivial: the input contains a meta character of its parser and has >= 2 '
+            'bytes; distinct = hash of (parser, variant, bytes).',
+    'required_tags': ['parser-printf', 'parser-fmt', 'parser-cmdline', 'parser-to_number', 'printf-dollar', 'printf-star', 'cmdline-quote', 'cmdline-unbalanced-quote', 'to_number-long-digits', 'ended-in-frg_panic', 'completed'],
+    'min_cases': {'quick': 200000, 'thorough': 3000000},
+    'level_text': 'exhaustive over short strings of the syntactically relevant characters for each parser, plus generated and coverage-guided longer inputs, under ASan+UBSan with exact-size buffers; held on everything generated',
+    'level_note': 'trusts ASan/UBSan to expose out-of-bounds accesses and signed overflow; frg_panic is an allowed outcome; conversions outside the property (floats, %n) are rejected by the agent',
+    'technique': 'fuzzing (exhaustive small alphabets, rapidcheck byte strings, libFuzzer with dictionary) of the four parsers under ASan+UBSan with exact-size buffers and argument lists',
+    'assumptions': ['x86-64 SysV va_list layout', 'inputs up to 4 KiB'],
 }
 
 NOT_APPLICABLE = {}
